@@ -196,6 +196,26 @@ def r05a(repo, chk):
             if ds:
                 detail.append("tokens = " + "; ".join(norm(d.value) for d in ds if d.value is not None))
         detail.append(norm(c))
+    # set form: unused = defined - {token for tokens in tokenized for token in tokens}
+    def is_token_set(e, depth=0):
+        if depth > 4:
+            return False
+        if isinstance(e, (ast.SetComp, ast.ListComp, ast.GeneratorExp)) and isinstance(e.elt, ast.Name):
+            return kind_of_name(e.elt) == "token"
+        if isinstance(e, ast.Call) and norm(e.func) in ("set", "frozenset") and len(e.args) == 1:
+            return is_token_set(e.args[0], depth + 1)
+        if isinstance(e, ast.Name):
+            ids = live_ids(cfg2, e)
+            ds = rd2.at(ids[0], e.id) if ids else []
+            return bool(ds) and all(d.kind == "assign" and not d.index and d.value is not None and is_token_set(d.value, depth + 1) for d in ds)
+        return False
+    for e in ast.walk(ru):
+        if isinstance(e, ast.BinOp) and isinstance(e.op, ast.Sub) and is_token_set(e.right):
+            ok = True
+            detail.append(norm(e))
+        if isinstance(e, ast.Call) and isinstance(e.func, ast.Attribute) and e.func.attr in ("difference", "isdisjoint", "intersection") and e.args and is_token_set(e.args[0]):
+            ok = True
+            detail.append(norm(e))
     uses_re2 = [c for c in ast.walk(ru) if isinstance(c, ast.Call) and norm(c.func).startswith("re.")]
     substr = [c for c in ast.walk(ru) if isinstance(c, ast.Compare) and isinstance(c.ops[0], ast.In) and isinstance(c.comparators[0], ast.Name)
               and c.comparators[0].id in ("line", "code")]
@@ -290,6 +310,20 @@ def r05e(repo, chk):
                                     and any(i.id in dom.get(d.node, set()) for i in incs) for d in ds)
         return False
     okn = bool(fstrs) and counter is not None and all(any(isinstance(v, ast.FormattedValue) and is_counter(v.value, j) for v in j.values) for j in fstrs)
+    # names built by concatenation: "lb" + prefix + str(counter)
+    concats = [b for b in ast.walk(fn) if isinstance(b, ast.BinOp) and isinstance(b.op, ast.Add) and not (isinstance(getattr(b, "parent", None), ast.BinOp) and isinstance(b.parent.op, ast.Add))
+               and any(isinstance(x, ast.Constant) and isinstance(x.value, str) for x in ast.walk(b))]
+    if concats and counter is not None:
+        def has_counter(b):
+            for x in ast.walk(b):
+                if isinstance(x, ast.Call) and norm(x.func) in ("str", "format", "repr") and x.args and is_counter(x.args[0], b):
+                    return True
+                if isinstance(x, ast.FormattedValue) and is_counter(x.value, b):
+                    return True
+            return False
+        okc = all(has_counter(b) for b in concats)
+        okn = okc and (okn or not fstrs)
+        fstrs = fstrs + concats
     chk.judge("R05.e", "generate_code:get_label:every name contains the counter", okn,
               f"a label name is built without the counter {counter}", {"names": [norm(j) for j in fstrs]}, where)
     # the counter is shared only with get_register_name/get_constant_name, which also advance it
@@ -360,37 +394,98 @@ def r05f(repo, chk):
     chk.judge("R05.f", "generate_code:remove_labels:label lines are dropped, all other lines are kept in order", ok_branch,
               "the branch that records a label also keeps the line, or the other branch does not append the line", None, where)
     # substitution loop: for every kept line, for every label: search and sub with the same pattern
-    subs = [c for c in ast.walk(fn) if isinstance(c, ast.Call) and norm(c.func) == "re.sub"]
-    searches = [c for c in ast.walk(fn) if isinstance(c, ast.Call) and norm(c.func) == "re.search"]
+    # re.sub(p, ..) / re.search(p, ..)  and  <compiled>.sub(..) / <compiled>.search(..): normalised to (call, pattern source, remaining args)
+    def compiled_source(e, at, depth=0):
+        """the expression handed to re.compile that *e* (a name, possibly a loop variable over a list of compiled patterns) stands for"""
+        if depth > 5:
+            return None
+        if isinstance(e, ast.Call) and norm(e.func) == "re.compile" and e.args:
+            return e.args[0]
+        if isinstance(e, ast.Name):
+            ids = live_ids(cfg, at)
+            ds = rd.at(ids[0], e.id) if ids else []
+            srcs = []
+            for d in ds:
+                v = d.value
+                if d.kind == "assign" and v is not None and not d.index:
+                    srcs.append(compiled_source(v, cfg.nodes[d.node].ast, depth + 1))
+                elif d.kind == "for" and v is not None:
+                    it = v
+                    if isinstance(it, ast.Name):
+                        ids2 = live_ids(cfg, cfg.nodes[d.node].ast) or ids
+                        d2 = rd.at(ids2[0], it.id)
+                        it = d2[0].value if len(d2) == 1 and d2[0].kind == "assign" else None
+                    if isinstance(it, ast.Call) and norm(it.func) in ("list", "tuple") and it.args:
+                        it = it.args[0]
+                    if isinstance(it, (ast.ListComp, ast.GeneratorExp)):
+                        elt = it.elt
+                        for i_ in (d.index or ()):
+                            elt = elt.elts[i_] if isinstance(elt, ast.Tuple) and i_ < len(elt.elts) else None
+                            if elt is None:
+                                break
+                        srcs.append(compiled_source(elt, cfg.nodes[d.node].ast, depth + 1) if elt is not None else None)
+                    else:
+                        srcs.append(None)
+                else:
+                    srcs.append(None)
+            if srcs and all(x is not None for x in srcs) and len({norm(x) for x in srcs}) == 1:
+                return srcs[0]
+        return None
+
+    class _RC:
+        def __init__(self, call, pat, rest):
+            self.call, self.args, self.lineno = call, [pat] + list(rest), call.lineno
+
+    subs, searches = [], []
+    for c in ast.walk(fn):
+        if not isinstance(c, ast.Call):
+            continue
+        f = norm(c.func)
+        if f in ("re.sub", "re.search") and c.args:
+            (subs if f == "re.sub" else searches).append(_RC(c, c.args[0], c.args[1:]))
+        elif isinstance(c.func, ast.Attribute) and c.func.attr in ("sub", "search") and isinstance(c.func.value, ast.Name):
+            src = compiled_source(c.func.value, c)
+            if src is not None:
+                (subs if c.func.attr == "sub" else searches).append(_RC(c, src, c.args))
     if subs:
         same = all(norm(s.args[0]) == norm(subs[0].args[0]) for s in subs + searches)
         chk.judge("R05.f", "generate_code:remove_labels:search and replacement use one pattern", same,
                   f"patterns differ: {sorted({norm(s.args[0]) for s in subs + searches})}", None, where)
         for s in subs:
             loops = []
-            p = s
+            p = s.call
             while p is not None and p is not fn:
                 if isinstance(p, ast.For):
-                    loops.append(norm(p.iter))
+                    it = p.iter
+                    # a list built from the label map without a filter stands for the map itself
+                    if isinstance(it, ast.Name):
+                        ids_ = live_ids(cfg, p.iter)
+                        ds_ = rd.at(ids_[0], it.id) if ids_ else []
+                        if len(ds_) == 1 and ds_[0].kind == "assign" and isinstance(ds_[0].value, (ast.ListComp, ast.GeneratorExp)) \
+                                and len(ds_[0].value.generators) == 1 and not ds_[0].value.generators[0].ifs:
+                            it = ds_[0].value.generators[0].iter
+                    loops.append(norm(it))
                 p = getattr(p, "parent", None)
             ok = any(f"{mapname}.items()" in l or l == mapname for l in loops) and any("enumerate" in l or listname and listname in l for l in loops)
-            brk = [b for lp in ast.walk(fn) if isinstance(lp, ast.For) for b in ast.walk(lp) if isinstance(b, (ast.Break,)) and any(x is s for x in ast.walk(lp))]
+            brk = [b for lp in ast.walk(fn) if isinstance(lp, ast.For) for b in ast.walk(lp) if isinstance(b, (ast.Break,)) and any(x is s.call for x in ast.walk(lp))]
             chk.judge("R05.f", "generate_code:remove_labels:every label is substituted in every line", ok and not brk,
                       f"the substitution runs inside loops over {loops}{' with a break' if brk else ''}: expected all lines x all labels", {"loops": loops}, where)
             # no line is exempted from the substitution: the only tests around it are the search for the label itself
             from .c15 import symbolic_path
             line_vars = set()
-            p = s
+            p = s.call
             while p is not None and p is not fn:
                 if isinstance(p, ast.For) and ("enumerate" in norm(p.iter) or listname and listname in norm(p.iter)):
                     line_vars |= {n.id for n in ast.walk(p.target) if isinstance(n, ast.Name)}
                 p = getattr(p, "parent", None)
-            _env, conds = symbolic_path(fn, s)
+            _env, conds = symbolic_path(fn, s.call)
             for t_, pol in conds:
                 txt = norm(t_)
                 names = {n.id for n in ast.walk(t_) if isinstance(n, ast.Name)}
                 if isinstance(t_, ast.Call) and norm(t_.func) in ("re.search", "re.match", "re.fullmatch") or "re.search(" in txt and pol:
                     continue
+                if pol and isinstance(t_, ast.Call) and isinstance(t_.func, ast.Attribute) and t_.func.attr == "search" and any(q.call is t_ or norm(q.call) == txt for q in searches):
+                    continue    # the compiled form of the same pre-check
                 if isinstance(t_, ast.Compare) and len(t_.ops) == 1 and isinstance(t_.ops[0], ast.In) and pol and isinstance(t_.comparators[0], ast.Name) and t_.comparators[0].id in line_vars:
                     continue    # 'label in line': a cheaper necessary condition of the search
                 if isinstance(t_, (ast.Name, ast.Attribute)) and txt.endswith("relative_numbers"):
@@ -405,7 +500,7 @@ def r05f(repo, chk):
             rep = s.args[1] if len(s.args) > 1 else None
             okr = False
             if isinstance(rep, ast.Name):
-                ids = live_ids(cfg, s)
+                ids = live_ids(cfg, s.call)
                 ds = rd.at(ids[0], rep.id) if ids else []
                 okr = bool(ds) and all(d.kind == "assign" and isinstance(d.value, ast.Call) and norm(d.value.func) == "str" for d in ds)
             chk.judge("R05.f", "generate_code:remove_labels:replacement is the decimal line index", okr,
